@@ -1,6 +1,8 @@
 package gosym
 
 import (
+	"fmt"
+	"os"
 	"sync"
 	"time"
 
@@ -61,6 +63,7 @@ func Explore(w *World, fns []*ssa.Function, cfg Config, workers int) (*Stats, ma
 				inflight++
 				mu.Unlock()
 
+				tA := time.Now()
 				var alts [][]uint64
 				if over || expired {
 					ex.stats.LimitHit = true
@@ -68,6 +71,7 @@ func Explore(w *World, fns []*ssa.Function, cfg Config, workers int) (*Stats, ma
 					alts = ex.RunPath(it.fn, it.trail)
 				}
 
+				tB := time.Now()
 				mu.Lock()
 				inflight--
 				for i := len(alts) - 1; i >= 0; i-- {
@@ -83,9 +87,31 @@ func Explore(w *World, fns []*ssa.Function, cfg Config, workers int) (*Stats, ma
 				ex.stats = newStats()
 				mu.Unlock()
 				cond.Broadcast()
+				tC := time.Now()
+				if ex.NumTerms() > 400000 {
+					if err := ex.ResetContext(); err != nil {
+						mu.Lock()
+						firstErr = err
+						mu.Unlock()
+						return
+					}
+				}
+				tD := time.Now()
+				if os.Getenv("VERIF_DEBUG") != "" {
+					dbgRun += tB.Sub(tA)
+					dbgMerge += tC.Sub(tB)
+					dbgReset += tD.Sub(tC)
+					dbgN++
+					if dbgN%200 == 0 {
+						fmt.Fprintf(os.Stderr, "DEBUG explore: n=%d run=%v merge=%v reset=%v send=%v bytes=%d solver=%v terms=%d\n", dbgN, dbgRun, dbgMerge, dbgReset, ex.solver.SendTime, ex.solver.SentBytes, ex.solver.Time, ex.NumTerms())
+					}
+				}
 			}
 		}()
 	}
 	wg.Wait()
 	return total, byHarness, firstErr
 }
+
+var dbgRun, dbgMerge, dbgReset time.Duration
+var dbgN int
